@@ -133,12 +133,12 @@ theorem findQuote_frame (qre : Pat) (text : Str) : ∀ fuel i, Pres Frame (findQ
   | zero => intro i; frame_start; unfold findQuote; wp_go
   | succ n ih => intro i; frame_start; unfold findQuote; wp_go
 
-theorem fragQuoteLoop_frame (defs : List QuoteDef) : ∀ fuel text, Pres Frame (fragQuoteLoop defs fuel text) := by
+theorem fragQuoteLoop_frame (defs : List QuoteDef) : ∀ fuel depth text, Pres Frame (fragQuoteLoop defs fuel depth text) := by
   have hf := findQuote_frame
   intro fuel
   induction fuel with
-  | zero => intro text; frame_start; unfold fragQuoteLoop; wp_go
-  | succ n ih => intro text; frame_start; unfold fragQuoteLoop; wp_go
+  | zero => intro depth text; frame_start; unfold fragQuoteLoop; wp_go
+  | succ n ih => intro depth text; frame_start; unfold fragQuoteLoop; wp_go
 
 theorem fragQuote_frame (defs : List QuoteDef) (f : Fragment) : Pres Frame (fragQuote defs f) := by
   have hf := fragQuoteLoop_frame defs
